@@ -779,14 +779,53 @@ class RewriteRuleSet:
                     for n in delta.new_nodes:
                         n.metadata_props[RULE_NAME_TAG] = rule.name
 
+                # A replacement may forward a value that already exists in the graph (for
+                # example a pattern input). replace_nodes_and_values gives every new value
+                # the name of the value it replaces: make sure that this never renames a
+                # graph input, an initializer or another value of the graph.
+                new_nodes = list(delta.new_nodes)
+                new_outputs = list(delta.new_outputs)
+                forwarded_values = []
+                for i, (old_value, new_value) in enumerate(
+                    zip(delta.match.outputs, new_outputs)
+                ):
+                    producer = new_value.producer()
+                    if producer is not None and any(producer is n for n in new_nodes):
+                        continue
+                    if old_value.is_graph_output():
+                        if (
+                            producer is None
+                            or new_value.is_graph_input()
+                            or new_value.is_initializer()
+                            or new_value.is_graph_output()
+                        ):
+                            identity = ir.node("Identity", inputs=[new_value])
+                            new_nodes.append(identity)
+                            new_outputs[i] = identity.outputs[0]
+                    else:
+                        forwarded_values.append(
+                            (
+                                new_value,
+                                new_value.name,
+                                new_value.type,
+                                new_value.shape,
+                                new_value.const_value,
+                            )
+                        )
+
                 convenience.replace_nodes_and_values(
                     graph_or_function,
                     node,
                     delta.match.nodes if rule.remove_nodes else [],
-                    delta.new_nodes,
+                    new_nodes,
                     delta.match.outputs,
-                    delta.new_outputs,
+                    new_outputs,
                 )
+                for value, name, type_, shape, const_value in forwarded_values:
+                    value.name = name
+                    value.type = type_
+                    value.shape = shape
+                    value.const_value = const_value
 
                 if merge_metadata:
                     _default_metadata_merger.copy_merged_metadata(
